@@ -45,8 +45,18 @@ func OpenValueErr(b []byte) (Value, error) {
 	return b[len(b)-n:], nil
 }
 
+// maxParseDepth is the maximum nesting depth of lists and messages accepted by the recursive
+// parse functions. A deeper (hostile) input would exhaust the goroutine stack, which is fatal.
+const maxParseDepth = 10000
+
+var errParseDepth = fmt.Errorf("parse: exceeded max nesting depth %d", maxParseDepth)
+
 // ParseValue recursively parses and returns a value.
 func ParseValue(b []byte) (_ Value, n int, err error) {
+	return parseValue(b, 0)
+}
+
+func parseValue(b []byte, depth int) (_ Value, n int, err error) {
 	typ, n, err := decode.DecodeType(b)
 	if err != nil {
 		return
@@ -91,10 +101,10 @@ func ParseValue(b []byte) (_ Value, n int, err error) {
 		_, n, err = decode.DecodeString(b)
 
 	case format.TypeList, format.TypeBigList:
-		_, n, err = ParseList(b)
+		_, n, err = parseList(b, depth)
 
 	case format.TypeMessage, format.TypeBigMessage:
-		_, n, err = ParseMessage(b)
+		_, n, err = parseMessage(b, depth)
 
 	case format.TypeStruct:
 		_, n, err = decode.DecodeStruct(b)
